@@ -11,6 +11,7 @@ use oracle::Big;
 use twofloat::TwoFloat;
 
 fn call(ctx: &mut Ctx, what: &str, x: Dd, f: fn(TwoFloat) -> TwoFloat) -> Option<Dd> {
+    decoy_call(ctx, x, f);
     match guard(|| f(x.tf())) {
         Ok(t) => Some(Dd::of(t)),
         Err(m) => {
@@ -60,6 +61,7 @@ fn c14_exp(ctx: &mut Ctx) {
             Dd::new(if ctx.flag() { -0.0 } else { 0.0 }, 0.0)
         }
     };
+    let x = if ctx.chance(1, 24) { if ctx.flag() { end_point(ctx, 700.0, -1) } else { end_point(ctx, -600.0, 1) } } else { x };
     check_exp(ctx, x);
 }
 
@@ -173,6 +175,7 @@ fn c14_exp2(ctx: &mut Ctx) {
         }
         _ => arg(ctx, &Strata { pivots: &[], emin: -1000, emax: 12, umax: 3000.0, positive_only: false }),
     };
+    let x = if ctx.chance(1, 24) { if ctx.flag() { end_point(ctx, 1000.0, -1) } else { end_point(ctx, -900.0, 1) } } else { x };
     let x = forced_or(ctx, x);
     x.key(ctx);
     note_dd(ctx, "x", x);
@@ -231,6 +234,7 @@ fn c14_exp_m1(ctx: &mut Ctx) {
         }
     };
     let x = if x.hi > 700.0 { Dd::new(x.hi / 2.0, 0.0) } else { x };
+    let x = if ctx.chance(1, 32) { end_point(ctx, 700.0, -1) } else { x };
     let x = forced_or(ctx, x);
     x.key(ctx);
     note_dd(ctx, "x", x);
@@ -320,6 +324,12 @@ fn c14_powf(ctx: &mut Ctx) {
                 y = y.neg();
             }
         }
+    }
+    if ctx.chance(1, 24) {
+        x = if ctx.flag() { end_point(ctx, 1073741824.0, -1) } else { end_point(ctx, 9.313225746154785e-10, 1) };
+    }
+    if ctx.chance(1, 24) {
+        y = end_point_sym(ctx, 10.0);
     }
     x.key(ctx);
     y.key(ctx);
